@@ -809,7 +809,10 @@ def run(P, rep, tier):
     rep.explanation = ('Control skeletons: gen_stmt/gen_expr are abstractly interpreted per statement / short-circuit form, the emitted templates are executed by the '
                        'term-level machine along every path of their own jumps (loops unrolled twice), and each path is compared with the executions C11 6.8 / 6.5.13-15 allow '
                        '(order of evaluations, which operand each test reads and with which width, where the continue/break labels sit, result value). '
-                       'Parser-side context and scope discipline is decided by typestate rules over parse.c.')
+                       'Parser-side context and scope discipline is decided by typestate rules over parse.c: stmt() is explored per keyword arm and the break/continue/switch '
+                       'context is recorded at every hand-off to a sub-parser (sub-statement vs. any other part of the statement); the declaring functions (enum_specifier, declaration, '
+                       'global_variable, parse_typedef, function, compound_stmt) are explored with the scope-table insertions, the parser hand-offs and enter/leave_scope as events, and '
+                       'their order on every path is compared with the point of declaration C11 6.2.1p7 prescribes.')
     rep.assumptions += ['children and sub-statements satisfy their contracts (structural induction)', 'floating truth tests are judged by C02 (R02.4); here either NaN treatment is accepted']
     r033(cg, rep)
     r033_switch(cg, rep)
